@@ -375,7 +375,7 @@ def foreign_table_shard(_):
             if nlive >= N:
                 continue
             recs = [kdriver.known_record(R.T_EVENTS, 0), kdriver.opaque_record(2)][:nlive]
-            base = bytearray(R.build_file(N, recs))
+            base = bytearray(R.build_file(N, recs, junk=lambda k: bytes((i * 11 + 0x51) % 255 + 1 for i in range(k))))
             own = {}
             for k in range(nlive, N):   # give every unused slot its own dates and comment
                 p0 = R.parse_file(bytes(base))["entries"][k]
@@ -424,6 +424,14 @@ def foreign_table_shard(_):
                         bad = f"unused slot #{i} has offset {e['offset']} size {e['size']} (end of data {end})"
                         break
                 got = [(e["ctime"], e["mtime"], e["comment"]) for e in unused]
+                if bad is None and hist[0][0] == "remove" and nlive:
+                    # everything from the removed slot on has been rewritten by the library: reserved word zero,
+                    # nothing after the comment's terminator (the source file carried garbage in both)
+                    for i, e in enumerate(p["entries"]):
+                        tail = e["comment_raw"][e["comment_raw"].find(b"\0"):] if b"\0" in e["comment_raw"] else b""
+                        if e["pad"] != b"\0\0\0\0" or tail.strip(b"\0"):
+                            bad = f"entry {i} rewritten by the library carries reserved word {e['pad'].hex()} / {len(tail.strip(bytes(1)))} non-zero bytes after the comment"
+                            break
                 if bad is None:
                     # every original slot that was not consumed must still be there, unchanged, in order
                     want_tail = [o for o in orig if o in got]
